@@ -11,11 +11,12 @@ META = {
     'text': 'Kernel-checked, unbounded: (npm) for documents with unique keys and well-formed updates a successful Write yields exactly '
             'substitute(requirements, updates) on re-Read, keeps keys/order and every unaddressed entry, is the identity on no updates, and never '
             'succeeds silently on a key that is present; the escaped path component is parsed back by gjson as the literal key. '
-            '(pom) generatePropertyPatches never slices out of range for any two strings, and a returned patch map interpolates the old '
-            'requirement to the new one whenever no placeholder name got two values (counterexample for the repeated-name case proved). '
+            '(pom) generatePropertyPatches never slices out of range for any two strings, and every returned patch map interpolates the old '
+            'requirement to exactly the new one and gives no name two values (full strength after fix d4dd80ce). '
             'The abstract pom writer is the identity on no updates. The pom.xml writer as a whole is covered by correspondence plus the '
-            'requirement-level oracle (re-read = substitute), not by a general theorem; six classes where the unchanged writer leaves the '
-            'property are recorded as known findings with witnesses. Token level: writeString (the rewrite applied to every dependency / parent / properties element) is modelled on token '
+            'requirement-level oracle (re-read = substitute), not by a general theorem; three classes where the unchanged writer leaves the '
+            'property are recorded as known findings with witnesses (comment inside <version>, dependencies-vs-dependencyManagement addressing, shared property); three '
+            'former ones (white space in key elements, undefined property, repeated placeholder) were repaired and their witnesses are regression cases. Token level: writeString (the rewrite applied to every dependency / parent / properties element) is modelled on token '
             'lists and is the identity whenever each addressed child holds exactly its value (comment-in-<version> counterexample proved); the element dispatch above it '
             '(write / writeProject / writeDependency) and the XML tokenizer/encoder (forkedxml) are not modelled.',
     'note': 'Trusted: Lean kernel (axioms propext/Quot.sound/Classical.choice at most); gjson/sjson address exactly the parsed literal key and change only '
@@ -26,9 +27,9 @@ NPM = 'Scalibr.Npm.'
 POM = 'Scalibr.Pom.'
 THEOREMS = [NPM + 'C13_npm_escape', NPM + 'C13_npm_roundtrip', NPM + 'C13_npm_identity', NPM + 'C13_npm_no_silent_success',
             NPM + 'C13_npm_present_applied', NPM + 'C13_npm_alias_at_witness',
-            POM + 'C13_pom_props_total', POM + 'C13_pom_props_sound_partial', POM + 'C13_pom_props_sound_distinct',
-            POM + 'C13_pom_props_repeated_name_witness', POM + 'C13_pom_props_fixed_witnesses', POM + 'C13_pom_identity',
-            POM + 'C13_pom_literal_roundtrip', POM + 'C13_pom_class_witnesses',
+            POM + 'C13_pom_props_total', POM + 'C13_pom_props_sound', POM + 'C13_pom_props_repeated_name_fixed',
+            POM + 'C13_pom_props_fixed_witnesses', POM + 'C13_pom_identity',
+            POM + 'C13_pom_literal_roundtrip', POM + 'C13_pom_class_witnesses', POM + 'C13_pom_fixed_witnesses',
             'Scalibr.PomTok.C13_pom_tokens_identity_partial', 'Scalibr.PomTok.C13_pom_tokens_comment_witness']
 
 
@@ -137,8 +138,6 @@ def run(ctx):
             return 'C13/pom-version-comment'
         if op == 'ws':
             return fm['cls'] if fm.get('cls', '-') != '-' else None
-        if op == 'pp' and fm.get('cons') == '0':
-            return 'C13/pom-props-repeated-name'
         if op.startswith('pom') and fm.get('cls', '-') != '-':
             return fm['cls']
         return None
